@@ -150,9 +150,22 @@ def _gen_case(seed, tier, index=0):
         # that the next run reads back what this one wrote
         toks = [t for t in G.TERMINATORS if t != G.STYLES[style][2][2]]
         opts["contributors"] = [rng.pick(A.CONTRIBUTORS) + " " + rng.pick(toks)]
+    foreign_head = None
+    if awkward == 2:
+        # the file starts with two notices of one holder under a prefix other than the requested one: the first merge
+        # takes the majority prefix, the second run meets a tie - and must leave the line alone
+        h = rng.pick(A.SAFE_HOLDERS)
+        pfx = rng.pick(["symbol", "string", "string-c", "spdx-symbol", "string-symbol"])
+        ys = sorted(rng.sample(["2015", "2017", "2018", "2019"], 2))
+        foreign_head = "\n".join(A.copyright_line(h, pfx, y) for y in ys)
+        opts["holders"], opts["merge_copyrights"] = [h], True
+        opts["years"] = [rng.pick(["2020", "2016", "2019"])]
+        opts.pop("exclude_year", None)
+        if rng.chance(0.5):
+            opts.pop("prefix", None)
     if rng.chance(0.15):
         opts["merge_copyrights"] = True
-    if rng.chance(0.1):
+    if rng.chance(0.1) and foreign_head is None:
         opts["skip_existing"] = True
     if rng.chance(0.15):
         opts["force_dot_license"] = True
@@ -160,6 +173,9 @@ def _gen_case(seed, tier, index=0):
     n = rng.randint(2, 5)
     clocks = _clocks(rng, n)
     case = _case(seed, style, opts, rng.pick(A.BODY_KINDS), name, n, clocks, hashseed=rng.randrange(8), extra_files=extra)
+    if foreign_head is not None and not opts.get("force_dot_license"):
+        case["world"]["files"][0]["content"] = G.comment(style, foreign_head, multi=not G.can_single(style)) + "\n\n" + G.body_for(style)
+        case["body"] = "foreign-notices"
     if awkward == 1:
         case["may_refuse"] = True
     if rng.chance(0.2):
